@@ -17,9 +17,9 @@ RULE = ('case = one generated FGG spec (non-recursive, linear, non-linear, mixed
         'differentiated under {Real, Log} x {fixed-point, newton, linear when admissible} with a random output cotangent; '
         'evaluations = specs; non-trivial = some reference gradient entry is non-zero and the spec has >= 2 factors; distinct = spec hashes')
 ASSUMPTIONS = ['reference gradient: autograd through K unrolled dense Kleene steps, K doubled until values and gradients agree to 1e-10; otherwise declined',
-               'library run with tol=1e-12, kmax=10000; gradients compared with rtol 1e-6, atol 1e-8*scale',
+               'library run with tol=1e-14, kmax=10000; gradients compared with rtol 1e-6, atol 1e-8*scale',
                'Log semiring: derivative w.r.t. finite log-weights only; output cotangent supported on finite entries of log Z', 'output cotangents are random with positive (even cases) or mixed-sign / negative (odd cases) coefficients',
-               'no infinite weights']
+               'no infinite weights', 'recursive specs whose least fixed point has a positive entry below 1e-6 are declined (absolute stopping rule: relative accuracy of such entries, hence of gradients, is not controlled by tol)']
 CLASSES = ('nonrec', 'linear', 'nonlinear', 'mixed')
 
 
@@ -56,6 +56,12 @@ def reference(spec, cot_seed):
         else:
             return None
         K0 = 2 * it + 10
+        # the library's iterations stop on an absolute change <= tol: if some nonterminal value is tiny, its
+        # relative error (and with it the error of gradients, which are multilinear in those values) is not
+        # controlled by tol; such specs are outside what "error vanishes as tol does" lets us compare at 1e-6
+        pos = [float(v[v > 0].min()) for v in x.values() if (v > 0).any()]
+        if pos and min(pos) < 1e-6:
+            return None
     else:
         K0 = len(spec['nonterminals']) + 1
         rho = 0.0
@@ -151,7 +157,7 @@ def check_spec(spec, meta, index):
                 ctx = dict(semiring=S, method=method, typed=meta['typed'], cls=meta['cls'])
 
                 def run():
-                    z = fggs.sum_product(fgg, method=method, semiring=sr, tol=1e-12, kmax=10000).to_dense()
+                    z = fggs.sum_product(fgg, method=method, semiring=sr, tol=1e-14, kmax=10000).to_dense()
                     if S == 'log':
                         mask = torch.isfinite(zref)
                         loss = (torch.where(mask, z, torch.zeros_like(z)) * ref['cot'] * mask).sum()
